@@ -11,7 +11,8 @@ EXPLANATION = (
     "function. With that, per half-open episode the counter goes 0,1,... and each admitted trial is preceded by "
     "one increment that passed the guard, so at most `permitted` trials reach the wrapped service for any number "
     "of concurrent callers and both window types. A check-then-act guard over counters that only completions "
-    "update admits every caller that arrives while trials are in flight.")
+    "update admits every caller that arrives while trials are in flight."
+    ' (WINDOW-DISPATCH) the recorders file trial outcomes into the counters the half-open decisions read.')
 RULE = "one obligation per admitting arm of the admission function (guard form, reservation on every admitted path) and per writer of the reserved counter"
 TRUSTED = ["tokio::sync::Mutex (mutual exclusion of admission decisions)", "rustc MIR construction"]
 ASSUMPTIONS = ["permitted_calls_in_half_open is the public configuration name of the bound"]
